@@ -87,6 +87,19 @@ fn execute_block<C: CellType, const LIMITED: bool>(
     Some(true)
 }
 
+#[cfg(hpbf_verif)]
+impl<C: CellType> IrInterpreter<C> {
+    /// Verification hook: build an interpreter directly from an IR program.
+    pub fn verif_from_ir(program: Program<C>) -> Self {
+        IrInterpreter { program }
+    }
+
+    /// Verification hook: the IR program this interpreter executes.
+    pub fn verif_ir(&self) -> &Program<C> {
+        &self.program
+    }
+}
+
 impl<C: CellType> Executor<'_, C> for IrInterpreter<C> {
     fn create(code: &str, opt: u32) -> Result<Self, Error> {
         let mut program = Program::<C>::parse(code)?;
